@@ -113,3 +113,65 @@ Proof.
   assert (E : eff_limit own 0 = own) by (unfold eff_limit; destruct (own =? 0) eqn:E0; [apply N.eqb_eq in E0; congruence|reflexivity]).
   rewrite E in H1. split; [exact H1|]. rewrite H2, H1. unfold announce. rewrite Hf. reflexivity.
 Qed.
+
+(* ---- the library talking to itself: the request it builds, answered by its own acceptor, read by its own requestor *)
+From PND Require Import Proofs.NegoPduProofs.
+
+Definition pcrq_of (ts_list : list bytes) (c : N * bytes) : item :=
+  PcRq (fst c) 0 0 0 0 {| sy_reserved := 0; sy_name := snd c |}
+       (map (fun t => {| sy_reserved := 0; sy_name := t |}) ts_list).
+
+Lemma map_opt_proposals ts_list (ctxs : list (N * bytes)) :
+  exists props, map_opt proposal_of (map (pcrq_of ts_list) ctxs) = Some props.
+Proof.
+  induction ctxs as [|c r [props IH]]; [exists []; reflexivity|].
+  eexists. cbn [map map_opt pcrq_of proposal_of]. rewrite IH. reflexivity.
+Qed.
+
+Lemma map_opt_answer_items cfg ts_list (ctxs : list (N * bytes)) :
+  exists ans, map_opt (answer_item cfg) (map (pcrq_of ts_list) ctxs) = Some ans.
+Proof.
+  induction ctxs as [|c r [ans IH]]; [exists []; reflexivity|].
+  cbn [map map_opt]. rewrite IH. unfold pcrq_of, answer_item.
+  destruct (mem_b _ (a_served cfg)); [destruct (chosen_item cfg _)|]; eexists; reflexivity.
+Qed.
+
+Lemma library_pair cfg called calling ctxs ts_list own_r own_a rest :
+  let rq := request_pdu called calling ctxs ts_list (MaxLen 0 4 own_r :: rest) in
+  exists m r,
+    accept_pdu cfg own_a rq = Some m /\ read_reply own_r ctxs (acc_pdu m) = Some r
+    /\ acc_max m = lim_a (negotiate own_r own_a) /\ rep_max r = lim_r (negotiate own_r own_a)
+    /\ user_subs (acc_pdu m) = MaxLen 0 4 (ann_a (negotiate own_r own_a)) :: rest.
+Proof.
+  intros rq.
+  destruct (map_opt_proposals ts_list ctxs) as [props Hp].
+  destruct (map_opt_answer_items cfg ts_list ctxs) as [ans Ha].
+  assert (Hitems : items_of rq = AppCtx 0 APP_CONTEXT :: map (pcrq_of ts_list) ctxs ++ [UserInfo 0 (MaxLen 0 4 own_r :: rest)])
+    by reflexivity.
+  assert (Hacc : exists m, accept_pdu cfg own_a rq = Some m).
+  { unfold rq, request_pdu.
+    change ([AppCtx 0 APP_CONTEXT] ++ map (fun c => PcRq (fst c) 0 0 0 0 {| sy_reserved := 0; sy_name := snd c |}
+              (map (fun t => {| sy_reserved := 0; sy_name := t |}) ts_list)) ctxs ++ [UserInfo 0 (MaxLen 0 4 own_r :: rest)])
+      with (AppCtx 0 APP_CONTEXT :: map (pcrq_of ts_list) ctxs ++ [UserInfo 0 (MaxLen 0 4 own_r :: rest)]).
+    cbn [accept_pdu]. rewrite last_wrap, middle_wrap, Ha, Hp. eexists; reflexivity. }
+  destruct Hacc as [m Hm]. exists m.
+  destruct (accept_pdu_spec cfg own_a rq m Hm) as [props' [Hp' [Hans [_ [_ [_ Hhd]]]]]].
+  destruct (accept_pdu_max cfg own_a rq m Hm) as [Hmax [Hsubs [Hfind _]]].
+  assert (Hus : user_subs rq = MaxLen 0 4 own_r :: rest).
+  { unfold user_subs. rewrite Hitems, last_wrap. reflexivity. }
+  (* the reply is an Assoc PDU whose last item is the user information and whose middle items are answers *)
+  assert (Hrep : exists r, read_reply own_r ctxs (acc_pdu m) = Some r).
+  { revert Hm Hans. unfold rq, request_pdu.
+    change ([AppCtx 0 APP_CONTEXT] ++ map (fun c => PcRq (fst c) 0 0 0 0 {| sy_reserved := 0; sy_name := snd c |}
+              (map (fun t => {| sy_reserved := 0; sy_name := t |}) ts_list)) ctxs ++ [UserInfo 0 (MaxLen 0 4 own_r :: rest)])
+      with (AppCtx 0 APP_CONTEXT :: map (pcrq_of ts_list) ctxs ++ [UserInfo 0 (MaxLen 0 4 own_r :: rest)]).
+    cbn [accept_pdu]. rewrite last_wrap, middle_wrap, Ha, Hp. intros Hm. injection Hm as <-. cbn [acc_pdu items_of read_reply].
+    change ([AppCtx 0 APP_CONTEXT] ++ ans ++ [UserInfo 0 (announce (eff_limit own_a (peer_announced (MaxLen 0 4 own_r :: rest))) (MaxLen 0 4 own_r :: rest))])
+      with (AppCtx 0 APP_CONTEXT :: ans ++ [UserInfo 0 (announce (eff_limit own_a (peer_announced (MaxLen 0 4 own_r :: rest))) (MaxLen 0 4 own_r :: rest))]).
+    rewrite last_wrap, middle_wrap. intros Hans. rewrite Hans. eexists; reflexivity. }
+  destruct Hrep as [r Hr]. exists r.
+  assert (Hf : find_maxlen (user_subs rq) = Some own_r) by (rewrite Hus; reflexivity).
+  destruct (pdu_negotiation cfg own_r own_a ctxs rq m r Hf Hm Hr) as [H1 [H2 H3]].
+  repeat split; try assumption.
+  rewrite Hsubs, Hus, H1. unfold announce. cbn [find_maxlen set_maxlen]. reflexivity.
+Qed.
